@@ -154,7 +154,7 @@ pub fn run(tier: Tier) -> ! {
     });
     chk.set("part_i_texts", json!(texts.len()));
     // (ii) 1-3 tokens x every per-token tag list
-    let tagpool: Vec<Option<&str>> = vec![None, Some("x"), Some("/"), Some("\\"), Some(" "), Some("あ"), Some("a/b"), Some("x "), Some("あ/𠀋\\")];
+    let tagpool: Vec<Option<&str>> = vec![None, Some("x"), Some("/"), Some("\\"), Some(" "), Some("あ"), Some("a/b"), Some("x "), Some("あ/𠀋\\"), Some("\u{3000}\t")];
     let surfaces: [&[char]; 3] = [&['a'], &['あ', 'b'], &['/', ' ']];
     let plan: Vec<(usize, usize)> = tier.pick(vec![(1, 3), (2, 2), (3, 2)], vec![(1, 4), (2, 3), (3, 2)]);
     for &(ntok, maxlen) in &plan {
